@@ -72,3 +72,7 @@ package types
 //@ func (k DistrKeeper) FundCommunityPool
 //@ trusted
 //@ modifies Bank, Other
+
+// protobuf Any unpacking of the requested content: abstract
+//@ func (m *MsgRequestSignature) GetContent
+//@ abstract
